@@ -122,7 +122,14 @@ def run_case(work, case):
     res['strop_any'] = {n: lang.filter_id(n) for n in sorted(names)}     # coverage statistics only
 
     before = snapshot(sandbox)
-    root = build_namespace_tree(parsed, root_dir, spelled, lctx)
+    try:
+        root = build_namespace_tree(parsed, root_dir, spelled, lctx)
+    except ValueError as ex:
+        # the stem check (C11_stem_collide_fix.patch) refuses the configuration; nothing may have been written
+        res['raised'] = str(ex)
+        res['after_build_new_files'] = sorted(snapshot(sandbox) - before)
+        res['nodes'] = []
+        return res
     res['after_build_new_files'] = sorted(snapshot(sandbox) - before)
 
     # ---- dump of the tree as reachable from the returned root --------------------------------------------------
